@@ -13,6 +13,7 @@ open Lean Netflow
 /-- one `parse_bytes` call as observed on the real crate and on the model -/
 structure Call where
   buf : Bytes
+  jsons : List String := []
   impl : ParseAns
   model : ParseAns
   implBefore : PState
@@ -92,7 +93,7 @@ def setTags : Packet → List String
 def jsonOfList (l : List String) : Json := Json.arr (l.map Json.str).toArray
 def jsonOfOracle (l : List (String × Bool)) : Json := Json.mkObj (l.map fun (k, v) => (k, Json.bool v))
 
-def handleParse (s : Sess) (i : Nat) (op impl : Json) : Sess × Json :=
+def handleParse (s : Sess) (i : Nat) (op impl : Json) (line2 : Option Json := none) : Sess × Json :=
   let p := getNatD op "p" 0
   let c := s.cfg p
   let st := s.st p
@@ -139,7 +140,20 @@ def handleParse (s : Sess) (i : Nat) (op impl : Json) : Sess × Json :=
           match op.getObjValAs? Nat "unknown_id", op.getObjValAs? Nat "unknown_proto" with
           | .ok tid, .ok proto => [("C07", Preds.noRecordsFor tid proto x.pkts)]
           | _, _ => []
-        let orc := orc ++ c07 a
+        -- C17: `impl2` (when present) is the answer of the DEFAULT build to the same history; `a` is the
+        -- answer of the build without `parse_unknown_fields`
+        let c17 : List (String × Bool) :=
+          match line2 with
+          | none => []
+          | some j2 =>
+            match (fromJson? j2 : Except String ParseAns) with
+            | .error _ => [("C17", false)]
+            | .ok a2 =>
+              let same := a.pkts == a2.pkts && a.exports == a2.exports && a.common == a2.common && a.state == a2.state
+              [("C17", (Findings.usesUnknown c a2.state || Findings.usesUnknown c before || Findings.reportsUnknownTemplate c a2.pkts || same) && Findings.noUnknownEntries c a.pkts)]
+        let jsons : List Json := match impl.getObjVal? "json" with | .ok (.arr xs) => xs.toList | _ => []
+        let c16 : List (String × Bool) := if wants op "json" then [("C16", a.outcome != "done" || Preds.jsonAllOk c a.pkts jsons)] else []
+        let orc := orc ++ c07 a ++ c17 ++ c16
         let morc := morc ++ c07 m
         let classes0 := Findings.outputClasses c a.pkts ++
             (match (fromJson? ((op.getObjVal? "msgs").toOption.getD Json.null) : Except String (List Spec.Msg)) with
@@ -149,7 +163,7 @@ def handleParse (s : Sess) (i : Nat) (op impl : Json) : Sess × Json :=
               | .error _ => [])
         let stickyNow := ((s.sticky.lookup p).getD []) ++ classes0.filter (fun x => x == "ipfix-multi-template-set")
         let classes := (classes0 ++ stickyNow).eraseDups
-        let call : Call := { buf := buf, impl := a, model := m, implBefore := before }
+        let call : Call := { buf := buf, impl := a, model := m, implBefore := before, jsons := jsons.map (·.compress) }
         let s' := { s' with sticky := upd s'.sticky p stickyNow.eraseDups, implSts := upd s'.implSts p a.state, calls := upd s'.calls p (call :: (s'.calls.lookup p).getD []) }
         (s', Json.mkObj [("i", i), ("kind", "parse"), ("corr", d.isEmpty), ("diff", jsonOfList d),
           ("model_outcome", m.outcome), ("impl_outcome", implOutcome), ("returned", true),
@@ -193,7 +207,9 @@ def handleAssert (s : Sess) (i : Nat) (op : Json) : Json :=
   | "assert_same" =>
     let key := getStrD op "key" "C06"
     let f (sel : Call → ParseAns) := ca.map (fun c => (sel c).pkts) == cb.map (fun c => (sel c).pkts) && lastState ca sel == lastState cb sel
-    mk key (f (·.impl)) (f (·.model))
+    -- two parser instances fed the same history serialise to identical text
+    let sameText := key != "C16" || ca.map (·.jsons) == cb.map (·.jsons)
+    mk key (f (·.impl) && sameText) (f (·.model))
   | "assert_filter" =>
     -- C12: a = allowed set S, b = every version allowed, same buffer; optional c = all-allowed parser fed the allowed prefix only
     let S := (s.allowed.lookup a).getD Generated.defaultAllowed
@@ -278,7 +294,7 @@ def handle (s : Sess) (line : Json) : Sess × Json :=
   | "allowed" =>
     ({ s with allowed := upd s.allowed (getNatD op "p" 0) ((getNatList op "set").getD []) }, Json.mkObj [("i", i), ("kind", "allowed")])
   | "parse" =>
-    if s.dead then (s, Json.mkObj [("i", i), ("kind", "skipped")]) else handleParse s i op impl
+    if s.dead then (s, Json.mkObj [("i", i), ("kind", "skipped")]) else handleParse s i op impl (line.getObjVal? "impl2").toOption
   | "flat" =>
     if s.dead then (s, Json.mkObj [("i", i), ("kind", "skipped")]) else handleFlat s i op impl
   | other =>
